@@ -289,6 +289,23 @@ def _valid(schema, value):
     return jsonschema.Draft202012Validator(schema).is_valid(value)
 
 
+_MEMBER_TYPES = {}
+
+
+def _member_type_takes(member, inst):
+    key = json.dumps(member, sort_keys=True)
+    if key not in _MEMBER_TYPES:
+        try:
+            _MEMBER_TYPES[key] = JsonSchemaParser(member)()
+        except Exception:       # noqa
+            _MEMBER_TYPES[key] = None
+    t = _MEMBER_TYPES[key]
+    if t is None:
+        return False
+    st, r = call_guarded(lambda: _NS["type_transform"](json.loads(json.dumps(inst)), t, options=strict_opts()), wall_s=2.0)
+    return st == "ok"
+
+
 def _subclass(schema, inst, enc, kw):
     """semantic sub-classes of the recorded design-level findings (a fingerprint without one of these tags is never
     covered by them)"""
@@ -306,6 +323,14 @@ def _subclass(schema, inst, enc, kw):
         if len(ok) > 1 and all(json.dumps(m, sort_keys=True) == json.dumps(ok[0], sort_keys=True) for m in ok):
             # equal members are merged into one
             return "@oneof-equal-members"
+        if any(m == {} for m in members):
+            # a member that allows everything absorbs the others (Any inside utype's ^ / | is just Any)
+            return "@oneof-unconstrained-member"
+        if len(ok) > 1 and sum(1 for m in members if _member_type_takes(m, inst)) <= 1:
+            # exclusivity is decided by which member *types* convert the input; a member type may be stricter than its
+            # schema (an untyped keyword such as {"minimum": 0} allows every non-number, format is an annotation), so
+            # the value that comes back can satisfy two member schemas although only one member type took the input
+            return "@oneof-member-type-stricter-than-its-schema"
         return ""
     if "minProperties" in kw and isinstance(inst, dict) and isinstance(enc, dict):
         gone = [k for k in inst if k not in enc]
